@@ -59,9 +59,27 @@ Example C23_hyps_satisfiable :
     Some (P (P (P (V 0) (V 1)) (P (V 2) (V 3))) (P (P (V 4) (V 5)) (V 6))).
 Proof. repeat split; try discriminate; try lia. Qed.
 
-(* The evaluated tree is a sum of all summands, each exactly once and in order: its in-order leaf
-   sequence over symbolic summands v0..v(n-1) is 0..n-1.  BOUNDED statement (1 <= n <= 128, by
-   exhaustive computation); the theorems above are unbounded. *)
-Theorem C23_tree_leaves_in_order_upto_128 :
-  forall n, 1 <= n <= 128 -> leaves_ok n = true.
-Proof. exact tree_leaves_bounded. Qed.
+(* The evaluated tree is a sum of ALL summands, each exactly once and in order, for every n >= 1:
+   its in-order leaf sequence over symbolic summands v0..v(n-1) is 0..n-1. *)
+Require NV.C23.Leaves.
+
+Theorem C23_tree_leaves_in_order :
+  forall n, 1 <= n ->
+    exists t, seq_sum tm P (sym_vals n) = Some t /\ Leaves.leaves t = seq 0 n.
+Proof. exact Leaves.tree_leaves. Qed.
+
+(* The run over ANY magma is the evaluation of that one symbolic tree (the tree shape does not
+   depend on the values)... *)
+Theorem C23_run_is_tree_evaluation :
+  forall (A : Type) (op : A -> A -> A) (f : nat -> A) (n : nat),
+    seq_sum A op (map f (seq 0 n)) = option_map (Leaves.eval A op f) (seq_sum tm P (sym_vals n)).
+Proof. exact Leaves.seq_sum_is_eval. Qed.
+
+(* ... hence for an associative operation (exact arithmetic) the result is the ordinary sum
+   f 0 + f 1 + ... + f (n-1); for floating point it is this particular parenthesisation. *)
+Theorem C23_associative_sum :
+  forall (A : Type) (op : A -> A -> A) (f : nat -> A),
+    (forall a b c, op a (op b c) = op (op a b) c) ->
+    forall n, 1 <= n ->
+      seq_sum A op (map f (seq 0 n)) = Some (Leaves.fold1 A op (f 0) (map f (seq 1 (n - 1)))).
+Proof. exact Leaves.seq_sum_assoc. Qed.
